@@ -1,7 +1,9 @@
 // Engine D harness for C03 (simple processors): the UNMODIFIED SimpleSpanProcessor / SimpleLogRecordProcessor (and the
 // SpinLockMutex they lock around exporter_->Export) under the scheduler shim.  The trace has exactly the format of the
 // C11 spin-lock harness, with the exporter call as the critical section, so the same Lean model steps it.
-//   ssp|slp <n0> <n1> ... [S] ; t<i> ; ...     n_i = number of OnEnd/OnEmit calls of thread i; S = after Shutdown()
+//   ssp|slp <n0>[f] <n1> ... [S] ; t<i> ; ...     n_i = number of OnEnd/OnEmit calls of thread i; S = after Shutdown(); suffix
+//   f on the first count = the processor is built by its factory's Create instead of the constructor.  Every second record
+//   of a thread is obtained through Processor::MakeRecordable() (and, for spans, announced with OnStart): pass-throughs.
 #include "common.h"
 
 #define private public
@@ -9,10 +11,12 @@
 #  include "opentelemetry/sdk/logs/exporter.h"
 #  include "opentelemetry/sdk/logs/recordable.h"
 #  include "opentelemetry/sdk/logs/simple_log_record_processor.h"
+#  include "opentelemetry/sdk/logs/simple_log_record_processor_factory.h"
 #else
 #  include "opentelemetry/sdk/trace/exporter.h"
 #  include "opentelemetry/sdk/trace/recordable.h"
 #  include "opentelemetry/sdk/trace/simple_processor.h"
+#  include "opentelemetry/sdk/trace/simple_processor_factory.h"
 #endif
 #undef private
 
@@ -37,6 +41,7 @@ struct Rec final : public sdkx::Recordable
   void SetInstrumentationScope(const opentelemetry::sdk::instrumentationscope::InstrumentationScope &) noexcept override {}
 };
 using Processor = sdkx::SimpleLogRecordProcessor;
+using Factory   = sdkx::SimpleLogRecordProcessorFactory;
 using Exporter  = sdkx::LogRecordExporter;
 #  define ONEND OnEmit
 #else
@@ -56,6 +61,7 @@ struct Rec final : public sdkx::Recordable
   void SetInstrumentationScope(const opentelemetry::sdk::instrumentationscope::InstrumentationScope &) noexcept override {}
 };
 using Processor = sdkx::SimpleSpanProcessor;
+using Factory   = sdkx::SimpleSpanProcessorFactory;
 using Exporter  = sdkx::SpanExporter;
 #  define ONEND OnEnd
 #endif
@@ -90,6 +96,8 @@ static std::string handle(const std::vector<std::string> &t)
   auto ops = vh::split_ops(t, 1);
   if (ops.empty() || ops[0].empty() || ops[0].size() > 6) return "bad-op";
   std::vector<unsigned long> counts;
+  bool by_factory = false;
+  if (!ops[0][0].empty() && ops[0][0].back() == 'f') { by_factory = true; ops[0][0].pop_back(); }
   // a trailing `S`: the processor has been shut down before the threads start (OnEnd / OnEmit after Shutdown still go
   // through the lock and hand the record to the exporter, which may turn it away - Export is never re-entered)
   bool pre_shutdown = false;
@@ -118,7 +126,8 @@ static std::string handle(const std::vector<std::string> &t)
   detsched::reset();
   std::vector<std::string> outs;
   XState xs;
-  auto *proc = new Processor(std::unique_ptr<Exporter>(new HExporter(&xs)));
+  auto *proc = by_factory ? static_cast<Processor *>(Factory::Create(std::unique_ptr<Exporter>(new HExporter(&xs))).release())
+                          : new Processor(std::unique_ptr<Exporter>(new HExporter(&xs)));
   detsched::name_object(&proc->lock_, "flag");
   if (pre_shutdown) proc->Shutdown();
   for (size_t p = 0; p < counts.size(); p++)
@@ -128,7 +137,16 @@ static std::string handle(const std::vector<std::string> &t)
       {
         detsched::point("op", nullptr);
         detsched::note("lock");
-        proc->ONEND(std::unique_ptr<sdkx::Recordable>(new Rec()));
+        std::unique_ptr<sdkx::Recordable> r;
+        if (j % 2)
+        {
+          r = proc->MakeRecordable();
+#ifndef SIMPLE_LOGS
+          if (r) proc->OnStart(*r, opentelemetry::trace::SpanContext::GetInvalid());
+#endif
+        }
+        if (!r) r.reset(new Rec());
+        proc->ONEND(std::move(r));
       }
     });
   }
